@@ -54,13 +54,26 @@ func cpuTime() time.Duration {
 	return time.Duration(ru.Utime.Nano() + ru.Stime.Nano())
 }
 
-// deepNestingCost is the signature of the open finding "deep-nesting-cost":
-// a markup body that nests 25 or more *block* elements (pre, blockquote,
-// headers, lists, div, p). Rendering cost grows with depth^2 x width (every
-// block level re-expands the whole, padded/indented text of its children with
-// a regular expression), so a document of under a kilobyte can take tens of
-// seconds. Inline nesting of any depth is not part of the finding.
-func deepNestingCost(c Case) bool { return c.Blocks >= 25 }
+// deepNestingCost is the signature of the open finding "deep-nesting-cost": rendering costs about
+// blocks^2 x max(text, width) regular-expression work, because every nested *block* element (pre, blockquote,
+// headers, lists, div, p) re-expands the whole padded / indented text of its children. The finding covers markup
+// bodies with 25 or more nested block elements, and shallower ones whose blocks^2 x max(text bytes, widest width)
+// reaches 400 000 (21 blocks around 2 KB of text: 14 s for one call). Inline nesting of any depth is not part of it.
+func deepNestingCost(c Case) bool {
+	if c.Blocks >= 25 {
+		return true
+	}
+	span := c.TextBytes
+	for _, w := range c.Widths {
+		if w > span {
+			span = w
+		}
+	}
+	if span < 80 {
+		span = 80
+	}
+	return c.Blocks*c.Blocks*span >= 400000
+}
 
 // lapStart: process CPU time at which the call that is running now was started (read by the watchdog in check)
 var lapStart int64
